@@ -158,7 +158,7 @@ func cmdFM(args []string) {
 			if *opts != "" {
 				param += "," + *opts
 			}
-			st := Status{Runtime: rtn, File: spec.Name, Opts: param, Deps: spec.Deps, Pkg: spec.Pkg()}
+			st := Status{Runtime: rtn, File: spec.Name, Opts: param, Deps: spec.AllDeps(), Pkg: spec.Pkg()}
 			resp, err := runPlugin(*plugin, corpus.BuildWithDeps(spec, rt), param)
 			switch {
 			case err != nil:
